@@ -11,7 +11,7 @@ import replay
 import vlib
 
 OP_POINTS = ("idle", "http.uc", "http.ev", "inst.plan", "pol.start", "inst.install", "pol.rbneeded")
-STIMS = ("fire", "ctl", "clock", "crash", "restart", "end")
+STIMS = ("fire", "ctl", "clock", "crash", "restart", "end", "drop")
 
 
 def supported(sc):
@@ -39,8 +39,10 @@ def keep(e):
     k = e.get("k")
     if k in ("cfg", "end"):
         return True
-    if k in ("ctl.reply", "tm.nofire"):
-        # (a fire stimulus that selects no armed timer has no effect on the machine: driver bookkeeping)
+    if k in ("ctl.reply", "tm.nofire", "ctl.drop", "ctl.nohandle"):
+        # (a fire stimulus that selects no armed timer, and a request through a dropped handle, never reach the
+        # machine; dropping the handles only closes a channel the machine keeps listening on: the design model
+        # says scheduled operation goes on unchanged, which is what the rest of the run is checked against)
         return False
     return replay.proj(e) is not None
 
@@ -106,7 +108,7 @@ def validate(scs, log_path, wd, name="trace", prop=None, max_runs=None):
             res["rejected"].append({"scenario": r["id"], "matched": l - r["first"] + 1, "of": r["last"] - r["first"] + 1, "pc": pc,
                                     "next_recorded": nxt})
             continue
-        d = replay.diff(b["obs"], [e for e in r["recorded"] if e.get("k") != "tm.nofire"])
+        d = replay.diff(b["obs"], [e for e in r["recorded"] if e.get("k") not in ("tm.nofire", "ctl.drop", "ctl.nohandle")])
         if d:
             res["drift"].append({"scenario": r["id"], "first_difference": d})
         else:
